@@ -73,7 +73,7 @@ TreeClasses(ph) ==
                [m |-> "ClearEach", path |-> << >>] } ELSE {})
   \cup (IF HasBool(ph) THEN { [m |-> "SetByte", path |-> << 0, 0 >>, val |-> 2] } ELSE {})
   \cup (IF IsBcast(ph) THEN { [m |-> "ToSomeAny"], [m |-> "ToNoneAny"] } ELSE {})
-  \cup (IF Optional(ph) THEN { [m |-> "ToSomeAny"], [m |-> "ToNoneAny"], [m |-> "ToNoneAll"] } ELSE {})
+  \cup (IF Optional(ph) THEN { [m |-> "ToSomeAny"], [m |-> "ToNoneAny"], [m |-> "ToNoneAll"], [m |-> "ToSomeLast"] } ELSE {})
 
 Malformed(cfg, c) ==
   UNION { UNION { { Scn("malformed", c, << Dev(c, q, Sends(cfg, c, q)[j].ph, KPhase(Sends(cfg, c, q), j), m) >>,
@@ -142,6 +142,13 @@ Online(cfg, c) ==
                      \cup { Scn("online", c, << Dev(c, q, "lambda", 0, MBit(<< r, 1 >>, b)) >>, "victims", {q}, "revealed label") : b \in Bits } :
                      r \in UniqueOutRegs(circ) } : q \in { p \in Others : InPo(cfg, p) } })
   \cup
+  \* a masked value announced for a register that is no input wire (nothing is demanded of the outcome
+  \* here; the key-secrecy monitor looks at what the garblers answer)
+  { Scn("online", c, << Dev(c, ALL, "masked inputs", 0, [m |-> "ToSome", path |-> << r >>]) >>
+                       \o (IF b = 1 THEN << Dev(c, ALL, "masked inputs", 0, MPath("Flip", << r >>)) >> ELSE << >>),
+        "noabort", {}, "masked value for a non-input register") :
+      b \in {0, 1}, r \in (0 .. (circ.mr - 1)) \ AllInputRegs(circ) }
+  \cup
   \* different masked inputs to different recipients (needs two honest recipients)
   (IF n >= 3 THEN
      { Scn("online", c, << Dev(c, q, "masked inputs", 0, MPath("Flip", << r >>)) >>, "victims", Others, "masked input equivocation") :
@@ -188,6 +195,20 @@ Pre(cfg, c) ==
      \cup UNION { One("dvalue", MPath("Flip", << j, 0, 0 >>), "d-value bit") \cup One("dvalue", MBit(<< j, 1, 0 >>, 64), "d-value MAC") : j \in Pos(la) }
      \cup UNION { One("faand", MPath("Flip", << j, 0 >>), "Beaver d") \cup One("faand", MPath("Flip", << j, 1 >>), "Beaver e")
                   \cup One("faand", MBit(<< j, 2 >>, 1), "Beaver d MAC") \cup One("faand", MBit(<< j, 3 >>, 126), "Beaver e MAC") : j \in Pos(la) })
+  \* the same alteration at TWO positions of one checked vector (aggregated checks must not let them cancel)
+  \cup UNION { Two("fabitn", MPath("Flip", << 0, 0 >>), MPath("Flip", << 3 * RHO - 1, 0 >>), "two aBit test bits")
+               \cup Two("fabitn", MBit(<< 0, 1 >>, 5), MBit(<< 3 * RHO - 1, 1 >>, 5), "two aBit test MACs")
+               \cup Two("fashare di_bi", MBit(<< 0 >>, 100), MBit(<< RHO - 1 >>, 100), "two aShare opened key sums")
+               \cup Two("fashare ver", MBit(<< 0 >>, 0), MBit(<< RHO - 1 >>, 0), "two aShare check bits") : x \in {0} }
+  \cup (IF a < 2 THEN {} ELSE
+          Two("flaand hash", MBit(<< 0 >>, 9), MBit(<< lp - 1 >>, 9), "two LaAND check values")
+          \cup Two("flaand", MPath("Flip", << 0, 0 >>), MPath("Flip", << lp - 1, 0 >>), "two LaAND e bits")
+          \cup Two("dvalue", MPath("Flip", << 0, 0, 0 >>), MPath("Flip", << la - 1, 0, 0 >>), "two d-value bits")
+          \cup Two("dvalue", MBit(<< 0, 1, 0 >>, 64), MBit(<< la - 1, 1, 0 >>, 64), "two d-value MACs")
+          \cup Two("faand", MPath("Flip", << 0, 0 >>), MPath("Flip", << la - 1, 0 >>), "two Beaver d")
+          \cup Two("faand", MPath("Flip", << 0, 1 >>), MPath("Flip", << la - 1, 1 >>), "two Beaver e")
+          \cup Two("faand", MBit(<< 0, 2 >>, 1), MBit(<< la - 1, 2 >>, 1), "two Beaver d MACs")
+          \cup Two("faand", MBit(<< 0, 3 >>, 126), MBit(<< la - 1, 3 >>, 126), "two Beaver e MACs"))
   \* OT extension correlation data (first session with each peer)
   \cup UNION { { Scn("pre", c, << Dev(c, q, "KOS_OT_x_t0_t1", 0, MBit(<< 0, f >>, 17)) >>, "victims", {q}, "KOS check value") : f \in {0, 1, 2} }
                \* (a correction block only matters where the receiver's choice bit is 1, a matrix column
